@@ -402,6 +402,53 @@ def r15g(ctx, rep, rule="R15g"):
     fresh_results(ctx, rep, rule, "String", "marwood::vm::vcell::VCell::string", "string", "string-set!", 1, 8)
 
 
+def r15j(ctx, rep, rule="R15j"):
+    from .. import shapes
+    facts = ctx["facts"]
+    rep.rule(rule, "a character case conversion never truncates a multi-character mapping: char::to_uppercase / to_lowercase "
+             "yield one to three characters (ß -> SS), and a Scheme character is one scalar value, so a function that takes the "
+             "first character of the mapping with next() does so only when the mapping is exactly one character long — under "
+             "a dominating `count() == 1` test, or by pulling a second next() and requiring it to be None. Otherwise it keeps "
+             "the character unchanged.")
+    n = 0
+    for p, f in sorted(facts.fns.items()):
+        if not p.startswith("marwood::") or "::tests::" in p:
+            continue
+        nexts = [(bb, t) for bb, t in f.calls() if re.match(r"<std::char::To(Upper|Lower)case as std::iter::Iterator>::next$", t.get("fnargs") or "")]
+        if not nexts:
+            continue
+        n += 1
+        key = "%s|%s" % (rule, f.short)
+        by_count = all(any(re.match(r"\(Eq <char::To(Upper|Lower)case as iter::Iterator>::count\(.*\) c:1\)=T$", g)
+                           for g in shapes.guard_shapes(f, bb, None, 3)) for bb, t in nexts)
+        second_none = False
+        if len(nexts) >= 2:
+            for bb, t in nexts[1:]:
+                d = t["dest"]
+                for b2, blk in enumerate(f.blocks):
+                    tt = blk["term"]
+                    if tt["k"] != "switch":
+                        continue
+                    o = f.origin(tt["op"])
+                    if o[0] == "rv" and o[1]["rv"]["k"] == "disc":
+                        src = f.origin({"copy": o[1]["rv"]["place"]})
+                        if src[0] == "call" and src[1] is t:
+                            second_none = True
+                        # (a, b) tuple idiom: the discriminant is read from a field of the tuple built from both results
+                        if src[0] == "rv" and src[1]["rv"]["k"] == "agg" and any(
+                                f.origin(x)[0] == "call" and f.origin(x)[1] is t for x in src[1]["rv"].get("ops", [])):
+                            second_none = True
+        if by_count:
+            rep.ok(rule, key, "%s takes the first mapped character only under a count() == 1 test" % f.short, [nexts[0][1]["loc"]])
+        elif second_none:
+            rep.ok(rule, key, "%s takes the first mapped character and requires the next one to be absent" % f.short, [nexts[0][1]["loc"]])
+        else:
+            rep.fail(rule, key, "%s takes the first character of a case mapping without establishing that the mapping is one "
+                     "character long: for ß, ŉ, the ﬁ ligature ... it returns the first character of the expansion (#\\S for "
+                     "#\\ß) instead of leaving the character unchanged" % f.short, [nexts[0][1]["loc"]])
+    rep.floor(rule, "functions that take a character out of a case mapping", n, 4)
+
+
 def fresh_results(ctx, rep, rule, variant, ctor, what, mutator, floor_c, floor_b):
     facts, cg = ctx["facts"], ctx["cg"]
     rep.rule(rule, "%s results are newly allocated: (i) a VCell::%s value is built only by the allocating constructor %s "
@@ -458,6 +505,7 @@ def run(ctx, rep):
     r15g(ctx, rep)
     r15h(ctx, rep)
     r15i(ctx, rep)
+    r15j(ctx, rep)
     from . import numeric
     numeric.r_fold_adjacent(ctx, rep, "R15f", [STRMOD, "marwood::vm::builtin::char::"], 2)
     from . import C14
